@@ -34,6 +34,14 @@ func genC08(o *Out) {
 	sb := body(p, "TempPool", "SetBallot")
 	o.boolean("poolFirstWriterWins", strings.Contains(sb, "db.setBallotLock.Lock() defer db.setBallotLock.Unlock()") &&
 		strings.Contains(sb, "switch found, err := pst.Exists(key); {") && strings.Contains(sb, "case found: return false, nil"))
+	// a failed pool write ends the broadcast
+	o.boolean("broadcastStopsOnSetError", strings.Contains(br, `case err != nil: l.Error().Err(err).Msg("failed to set ballot") return err case stored != nil:`) &&
+		strings.Contains(st, `case err != nil: return nil, errors.WithMessage(err, "set ballot to pool")`))
+	// the pool writes a ballot under the key it is read from
+	pb := body(p, "TempPool", "Ballot")
+	o.boolean("poolKeysAgree", strings.Contains(sb, "key := leveldbBallotKey(bl.Point(), isaac.IsSuffrageConfirmBallotFact(bl.SignFact().Fact()))") &&
+		strings.Count(sb, "leveldbBallotKey(") == 1 &&
+		strings.Contains(pb, "spoint := base.NewStagePoint(point, stage)") && strings.Contains(pb, "pst.Get(leveldbBallotKey(spoint, isSuffrageConfirm))"))
 	mm := body(g, "States", "mimicBallotFunc")
 	o.boolean("mimicChecksPool", strings.Contains(mm, "switch newbl, found, err := st.args.BallotBroadcaster.Ballot( bl.Point().Point, bl.Point().Stage(), isaac.IsSuffrageConfirmBallotFact(bl.SignFact().Fact()), ); {") &&
 		strings.Contains(mm, "_ = st.args.BallotBroadcaster.Broadcast(newbl)"))
